@@ -15,6 +15,7 @@ impl Compiler {
             .into());
         }
 
+        self.close_upvalues_of_loop_scopes();
         let jump_offset = self.emit_jump(OpCode::Jump, span);
         if let Some(loop_ctx) = self.loop_stack.last_mut() {
             loop_ctx.break_jumps.push(jump_offset);
@@ -30,10 +31,30 @@ impl Compiler {
         Ok(())
     }
 
+    // break/continue jump out of the scopes opened inside the loop body without passing their
+    // end_scope: the variables captured there must be closed here, or a closure made in this
+    // iteration keeps pointing at a register the next iteration reuses
+    fn close_upvalues_of_loop_scopes(&mut self) {
+        let Some(loop_ctx) = self.loop_stack.last() else {
+            return;
+        };
+        let lowest = self
+            .scopes
+            .iter()
+            .skip(loop_ctx.scope_depth)
+            .flat_map(|scope| scope.captured_registers.iter().copied())
+            .min();
+        if let Some(lowest_captured) = lowest {
+            self.current
+                .emit_a(OpCode::CloseUpvals, lowest_captured, 0, 0, 0);
+        }
+    }
+
     pub fn compile_continue(&mut self, span: Span) -> Result<()> {
         if let Some(loop_ctx) = self.loop_stack.last() {
             let is_for_loop = loop_ctx.is_for_loop;
             let loop_start = loop_ctx.start;
+            self.close_upvalues_of_loop_scopes();
 
             if is_for_loop {
                 let jump_offset = self.emit_jump(OpCode::Jump, span);
